@@ -11,6 +11,7 @@ of get_root_uid() answers (`pol.root`) and EVERY fuel (nesting bound of the mode
 `judgeEv` (NV/C20/Spec.lean), which is also run on every trace of the real driver.
 -/
 import NV.C20.LemmasExec
+import NV.C20.Consequences
 
 namespace NV.C20
 
@@ -68,7 +69,7 @@ theorem events_ok (cfg : Cfg) (pol : Policy) (fuel : Nat) (hist : List (Oid × O
 
 theorem judgeStep_nil {bb : Option Name} {P : List Obj} {w1 : World} {r : StepRec} (h : StepOK bb P w1 r) :
     judgeStep bb P r = [] := by
-  simp [judgeStep, clauses, h.nocrash, h.known, h.euid, h.uid, h.creation, h.noeuid, h.exportc, h.asked, h.bind]
+  simp [judgeStep, clauses, h.nocrash, h.known, h.euid, h.uid, h.creation, h.noeuid, h.exportc, h.asked, h.bind, h.fp, h.voc]
 
 theorem judgeFrom_nil {bb : Option Name} :
     ∀ (trace : List StepRec) (P : List Obj) (i : Nat), TraceOK bb P trace → judgeFrom bb P i trace = [] := by
@@ -82,7 +83,7 @@ theorem judgeFrom_nil {bb : Option Name} :
 
 /-- **Top theorem.**  The specification oracle accepts the event trace of every history under every master policy:
     no clause of property C20 (euid, uid, creation, no-euid-no-creation, export preconditions, master asked, bind only
-    with the master's valid_bind approval, every object known and with a uid, no crash) is ever violated by the model. -/
+    with the master's valid_bind approval, geteuid(function) = the owner's euid, every object known and with a uid, no crash) is ever violated by the model. -/
 theorem model_satisfies_spec (cfg : Cfg) (pol : Policy) (fuel : Nat) (hist : List (Oid × Op)) :
     judgeEv cfg (events cfg pol fuel hist) = [] :=
   judgeFrom_nil _ _ 0 (events_ok cfg pol fuel hist)
@@ -321,5 +322,30 @@ example :
        ("m", [("bba", some "Backbone", none), ("m", some "Root", none)]),
        ("m", [("bba", some "Backbone", none), ("m", some "Root", none)]),
        ("m", [("m", some "zed", some "zed"), ("bba", some "Backbone", none)])] := by decide
+
+/-- **No effective uid out of nothing (model).**  Every euid name in every snapshot of every history is the root uid of the
+    first master or a name the master granted on the way: approved in a valid_seteuid call, or given to a reloaded master
+    (`euid_names_granted_from_start` holds for EVERY trace the oracle accepts, hence also for the real driver's traces that the
+    check judged `ok`; here it is instantiated with the model's) -/
+theorem model_euid_names_granted (cfg : Cfg) (pol : Policy) (fuel : Nat) (hist : List (Oid × Op)) :
+    ∀ r ∈ events cfg pol fuel hist, ∀ S, r.snap = some S →
+      euidsIn ((if cfg.noRoot then [] else [cfg.root]) ++ (events cfg pol fuel hist).flatMap grantedBy) S :=
+  euid_names_granted_from_start cfg _ (model_satisfies_spec cfg pol fuel hist)
+
+/-- **Every uid is a name the master decided on (model).**  Every uid name in every snapshot of every history is the first
+    master's uid, "NONAME", a creator_file answer given in the history, or a name the master granted as an euid -/
+theorem model_uid_names_decided (cfg : Cfg) (pol : Policy) (fuel : Nat) (hist : List (Oid × Op)) :
+    ∀ r ∈ events cfg pol fuel hist, ∀ S, r.snap = some S →
+      uidsIn ((initObjs cfg).filterMap (·.uid) ++ (initObjs cfg).filterMap (·.euid) ++
+        "NONAME" :: (events cfg pol fuel hist).flatMap (fun r => namedBy r ++ grantedBy r)) S := by
+  have h := model_satisfies_spec cfg pol fuel hist
+  unfold judgeEv at h
+  apply uid_names_decided _ (initObjs cfg) 0 _ _ h
+  · intro e he s hes
+    rw [List.mem_filterMap]
+    exact ⟨e, he, hes⟩
+  · intro e he s hes
+    rw [List.mem_filterMap]
+    exact ⟨e, he, hes⟩
 
 end NV.C20
